@@ -18,6 +18,8 @@ pub struct ContractReport {
     pub nontrivial: u64,
     pub samples: Vec<Value>,
     pub failures: Vec<Value>,
+    /// per failure class: (number of failing cases, order-independent fingerprint of their case indices) — over ALL cases, not only the kept ones
+    pub class_stats: Vec<(String, u64, u64)>,
     pub exhaustive: bool,
     pub wall_s: f64,
 }
@@ -28,6 +30,7 @@ impl ContractReport {
             "contract": self.name, "clause": self.clause, "scope": self.scope,
             "evaluations": self.evaluations, "distinct_nontrivial": self.nontrivial,
             "samples": self.samples, "failures": self.failures, "exhaustive": self.exhaustive,
+            "class_stats": self.class_stats.iter().map(|(c, n, fp)| json!({"class": c, "count": n, "fingerprint": format!("{:016x}", fp)})).collect::<Vec<_>>(),
             "wall_s": (self.wall_s * 100.0).round() / 100.0,
         })
     }
@@ -56,6 +59,7 @@ where
     let nontriv = AtomicU64::new(0);
     let samples = Mutex::new(Vec::<(u64, Value)>::new());
     let failures = Mutex::new(Vec::<(u64, Value)>::new());
+    let class_stats = Mutex::new(std::collections::BTreeMap::<String, (u64, u64)>::new());
     let stop = AtomicBool::new(false);
     let nthreads = rayon::current_num_threads();
     let slots: Arc<Vec<Slot>> = Arc::new((0..nthreads + 1).map(|_| Slot { started: Mutex::new(None) }).collect());
@@ -115,6 +119,12 @@ where
                     // failures may carry a class "[class=...]": kept apart (at most 8 per class) so that a recorded finding
                     // can never crowd out a different violation; only unclassified failures stop the run early
                     let class = if msg.starts_with("[class=") { msg[7..].split(']').next().unwrap_or("").to_string() } else { String::new() };
+                    if !class.is_empty() {
+                        let mut cs = class_stats.lock().unwrap();
+                        let e = cs.entry(class.clone()).or_insert((0, 0));
+                        e.0 += 1;
+                        e.1 = e.1.wrapping_add((i + 1).wrapping_mul(0x9E37_79B9_7F4A_7C15).rotate_left((i % 61) as u32));
+                    }
                     let mut f = failures.lock().unwrap();
                     let same = f.iter().filter(|(_, v)| v["class"].as_str().unwrap_or("") == class).count();
                     if class.is_empty() || same < 8 {
@@ -165,6 +175,7 @@ where
             }
             out
         },
+        class_stats: class_stats.into_inner().unwrap().into_iter().map(|(c, (n, fp))| (c, n, fp)).collect(),
         exhaustive: exhaustive && !stop.load(Ordering::Relaxed),
         wall_s: t0.elapsed().as_secs_f64(),
     }
